@@ -38,8 +38,8 @@ def spaces(tier, seed):
     sp.append(('aa-kinds', F.FBound(atoms=[A('C'), A('N')], bonds=('#',), descs=[(k, l) for k in '$><!' for l in ('', '1A')],
                                     dsyms=(None, '=', '#', '.'), max_atoms=2, max_descs=2 if q else 3, max_descs_per_atom=3,
                                     max_depth=0, max_rings=0, max_lead=1, max_annot=0, max_bonds=1), 3, True))
-    sp.append(('aa-arom', F.FBound(atoms=[A('c1ccccc1'), A('C'), A('[O-]')], bonds=(), descs=[('$', ''), ('!', '')],
-                                   dsyms=(None,), max_atoms=3, max_descs=2, max_depth=1, max_rings=0, max_lead=0,
+    sp.append(('aa-arom', F.FBound(atoms=[A('c1ccccc1'), A('C'), A('[O-]')], bonds=('-',), descs=[('$', ''), ('!', '')],
+                                   dsyms=(None, ':'), max_atoms=3, max_descs=2, max_depth=1, max_rings=0, max_lead=0,
                                    max_annot=0), 3, True))
     # explicit hydrogen atoms are nodes of a fragment like any other atom
     sp.append(('aa-hydrogen', F.FBound(atoms=[A('C'), A('O'), A('[H]'), A('[CH2]')], bonds=(), descs=[('$', '')],
